@@ -121,6 +121,16 @@ fn run_variant(
 
 /// Form bodies with characters a decoder or a text layer may treat specially (as raw bytes).
 pub fn special_form_bodies() -> Vec<(&'static str, Vec<u8>)> {
+    let mut v = special_form_bodies_0();
+    // form fields with a meaning in HTML form submission: ordinary parameters of a UTF-8 body
+    v.push(("_charset_ field naming windows-1252 in a UTF-8 body", "_charset_=windows-1252&name=caf\u{e9}".as_bytes().to_vec()));
+    v.push(("_charset_ field naming utf-16 in a UTF-8 body", "name=\u{65e5}\u{672c}&_charset_=utf-16".as_bytes().to_vec()));
+    v.push(("_charset_ field naming an unknown label", "_charset_=klingon&name=caf\u{e9}".as_bytes().to_vec()));
+    v.push(("isindex and _method fields", "isindex=x&_method=DELETE&n=\u{e9}".as_bytes().to_vec()));
+    v
+}
+
+fn special_form_bodies_0() -> Vec<(&'static str, Vec<u8>)> {
     vec![
             ("raw BOM first", "\u{feff}a=1&b=2".as_bytes().to_vec()),
             ("raw BOM first, single pair", "\u{feff}=1".as_bytes().to_vec()),
@@ -289,6 +299,12 @@ pub fn run(ctx: &Ctx) -> Report {
         for b in 0x80u16..=0xff {
             v.push(("single-high-byte", vec![b as u8]));
         }
+        // form fields with a meaning in HTML form submission (_charset_, isindex, _method) are ordinary parameters: the
+        // Content-Type alone says how the body is encoded
+        v.push(("_charset_-field-windows-1252-with-a-latin-1-byte", b"_charset_=windows-1252&name=caf\xe9".to_vec()));
+        v.push(("_charset_-field-iso-8859-1-with-a-latin-1-byte", b"name=caf\xe9&_charset_=iso-8859-1".to_vec()));
+        v.push(("_charset_-field-utf-16-with-utf-16-bytes", b"_charset_=utf-16le&n\x00=\x00v\x00\xff".to_vec()));
+        v.push(("_charset_-field-shift_jis-with-a-lead-byte", b"_charset_=shift_jis&k=\x83".to_vec()));
         v
     };
     let labels: Vec<String> = UNKNOWN_LABELS.iter().map(|s| s.to_string()).collect();
